@@ -885,6 +885,24 @@ class C19(Prop):
                         u=bytes.fromhex("e6db6867583030db3594c1a424b15f7c726624ec26b3353b10a903a6d0ab1c4c"),
                         oracle=ok_eq(bytes.fromhex("c3da55379de9c6908e94ea4df28d084f32eccf03491c71f754b4075577a28552"), "RFC 7748 5.2"),
                         tags=["rfc-vector"]))
+        # scalar edge cases: RFC 7748 clamps EVERY 32-byte string, incl. all zeros (= 2^254) and all ones
+        for k in (bytes(32), b"\xff" * 32, bytes(31) + b"\x40", b"\x01" + bytes(31)):
+            out.append(Case("xpub", k=k, oracle=ok_only("public-key derivation accepts every 32-byte scalar"), tags=["scalar-edge"]))
+            out.append(Case("x25519", k=k, u=pairs[0][1], oracle=ok_only("X25519 accepts every 32-byte scalar"), tags=["scalar-edge"]))
+        zp = Case("xpub", k=bytes(32))
+        vlib.run_impl(ctx.bin, [zp])
+        if zp.result["code"] == 0:
+            ra = Case("x25519", k=bytes(32), u=pairs[0][1])
+            rb = Case("x25519", k=pairs[0][0], u=zp.result["out"])
+            vlib.run_impl(ctx.bin, [ra])
+            rb.expect_fn = (lambda r, sh=ra.result["out"]: None if r["code"] == 0 and r["out"] == sh else ("DH is symmetric (zero scalar string)", r["outcome"]))
+            rb.tags = ["scalar-edge"]
+            out.append(rb)
+        # the exported AEAD is not limited to one chunk: open inverts seal beyond 65536 + 16 bytes
+        big = Case("seal", key=key, nonce=nonce, ad=b"big", x=ctx.rbytes(65536 + (300 if not ctx.thorough() else 70000)), tags=["seal-large"])
+        vlib.run_impl(ctx.bin, [big])
+        out.append(big)
+        out.append(Case("open", key=key, nonce=nonce, ad=b"big", x=big.result["out"], oracle=ok_eq(big.a["x"], "open inverts seal for large messages"), tags=["open-large"]))
         # HKDF / HMAC / SHA-256
         for n in ([1, 31, 32, 33, 64, 255] + ([8160] if ctx.thorough() else [1000])):
             out.append(Case("hkdf", salt=ctx.rbytes(rng.choice([0, 1, 32, 100])), ikm=ctx.rbytes(rng.choice([0, 22, 80])),
